@@ -37,7 +37,7 @@ def oracle_run(cfg):
     from pytorch_wavelets import DTCWTForward, DTCWTInverse
     r = np.random.default_rng(cfg['seed'])
     H, W = cfg['H'], cfg['W']
-    X = r.standard_normal((2, 2, H, W))
+    X = r.standard_normal((cfg.get('nb', 2), cfg.get('C', 2), H, W))
     try:
         y = DTCWTInverse(biort=cfg['biort'], qshift=cfg['qshift'])(DTCWTForward(biort=cfg['biort'], qshift=cfg['qshift'], J=cfg['J'])(torch.tensor(X))).numpy()
     except Exception as e:
